@@ -110,6 +110,7 @@ CHECKS.update({
             "outside never yield a sample. Tie/oracle: extracted specification and models vs the real reader on shape-exhaustive and random fragmented movies, as one stream and "
             "as init + media segment.",
             "Coq proof (lookup model = fragment specification) + correspondence",
+            "Props/C09Open.v: the same from BYTES (fragmented_file_open / _lookup: open_fuel on the ISO rendering of moov + moof/mdat pairs, moof offsets are the byte positions). "
             "Known findings D72 (single trex) and D94 (only the last track run of a track fragment is kept). Runs without per-sample sizes / without tfdt are outside the property. " + TB),
     "C10": ("proof",
             "PARTIAL. Kernel-checked for the model: (a) every program of the read and write monads (open, open fragment, read_sample, every encoder) returns Err EIo whenever the "
